@@ -253,8 +253,8 @@ def random_program(item):
         # explored by the model with their Enabled predicate; here every entry is used at most once
         names = [n for n in names if n not in ('concatenate', 'sources')]
         prog = r.sample(names, r.randint(1, 8))
-        if 'rename_a' in prog and 'set_primary_key' in prog and prog.index('rename_a') < prog.index('set_primary_key'):
-            # set_primary_key(['a']) where the first resource has no field a any more: not a well-typed program
+        if 'rename_a' in prog and any(k in prog and prog.index('rename_a') < prog.index(k) for k in ('set_primary_key', 'deduplicate')):
+            # set_primary_key(['a']) (on its own or inside the deduplicate entry) where the first resource has no field a any more: not a well-typed program
             return dict(ok=True, illtyped=True, prog=prog)
         typed = r.random() < 0.4
         if typed:
